@@ -13,7 +13,13 @@ def run_tlc(module, cfg, wd, env=None, workers=None, timeout=900, extra=(), heap
     jopts = ["-XX:+UseParallelGC", "-Xmx" + heap, "-DTLA-Library=" + SPEC + (os.pathsep + lib if lib else "")]
     if dfs_queue:
         jopts.append("-Dtlc2.tool.queue.IStateQueue=StateDeque")
-    cmd = ["java"] + jopts + ["-cp", JAVA_CP, "tlc2.TLC", "-workers", str(workers or NCPU), "-metadir", meta,
+    if not workers:
+        # all cores when the machine is idle (the way the registered checks are run); fewer when many checks share it
+        try:
+            workers = NCPU if os.getloadavg()[0] < NCPU else 4
+        except OSError:
+            workers = NCPU
+    cmd = ["java"] + jopts + ["-cp", JAVA_CP, "tlc2.TLC", "-workers", str(workers), "-metadir", meta,
                               "-config", cfg, "-noGenerateSpecTE"] + list(extra)
     if simulate:
         cmd += ["-simulate", simulate]
